@@ -250,7 +250,7 @@ class Contract:
     options: Dict[str, Any] = field(default_factory=dict)
 
 
-CLAUSES = {"lemma_before", "must_raise_if", "use_lemma", "ghost_before", "ensures_effects", "ghost_arg", "no_raise_if", "requires", "ensures", "ensures_raise", "raises", "may_raise", "modifies", "ghost_set", "loop",
+CLAUSES = {"lemma_after", "lemma_before", "must_raise_if", "use_lemma", "ghost_before", "ensures_effects", "ghost_arg", "no_raise_if", "requires", "ensures", "ensures_raise", "raises", "may_raise", "modifies", "ghost_set", "loop",
            "decreases", "hint", "split", "note", "fresh", "option"}
 
 
@@ -333,6 +333,8 @@ def parse_contract_file(path: str) -> Tuple[List[Contract], Dict[str, Any]]:
                 c.options[_const(call.args[0])] = _const(call.args[1])
             elif fn == "lemma_before":
                 c.options.setdefault("lemma_before", {}).setdefault(_const(call.args[0]), []).append(call.args[1])
+            elif fn == "lemma_after":
+                c.options.setdefault("lemma_after", {}).setdefault(_const(call.args[0]), []).append(call.args[1])
             elif fn == "must_raise_if":
                 c.options.setdefault("must_raise_if", []).extend(call.args)
             elif fn == "use_lemma":
